@@ -5,9 +5,9 @@
 //	forall data file D, query q, client c:  answer(cdb(D), q, c) == answer(rdb-v1(D), q, c) == answer(rdb-v2(D), q, c)
 //
 // (rcode, AA, and the answer/authority/additional sections as sets of records).
-// BOUND: D = a base zone plus every subset of size <= 2 (thorough: <= 3) of 14 optional building blocks
+// BOUND: D = a base zone plus every subset of size <= 2 (thorough: <= 3) of 15 optional building blocks
 // (located and global addresses, wildcards at two depths, a delegation with located and global NS, a child zone,
-// CNAME, TXT, a deep name, a name with a non-wildcard-safe label, an exact and a wildcard resolver map with their own subnet table); q over
+// CNAME, TXT, a deep name, a name with a non-wildcard-safe label, an exact and a wildcard resolver map with their own subnet table, a map with no subnet table); q over
 // 17 names x 6 types; c over four clients (no location, lA, lB, and one only the mapped table locates). Labelled bounded; never counted as proved.
 package dnsserver
 
@@ -51,6 +51,9 @@ var vbBlocks = []string{
 	// an EXACT resolver map on the apex (applies to the apex only, never to names below it) with its own subnet
 	// table, and a record for the location only that table yields
 	"Mexample.com,m1\n%lC,10.3.0.0/16,m1\n+www.example.com,9.9.9.9,180,,lC\n'example.com,apex for lC,300,,lC\n",
+	// a map WITHOUT any subnet line (its names must get no location from it), next to a map whose last range point
+	// carries a location (a subnet that reaches the end of the address space)
+	"Mtxt.example.com,m2\n%lB,ff00::/8,m0\nMnx2.example.com,m0\n",
 	// a WILDCARD resolver map below c.example.com (applies to every name below it) with the same table
 	"M*.c.example.com,m1\n%lC,10.3.0.0/16,m1\n+a.b.c.example.com,9.9.9.8,180,,lC\n",
 }
